@@ -10,7 +10,7 @@ rm -rf "$D"; git -C /repo worktree prune; mkdir -p /tmp/mut
 git -C /repo worktree add -q --detach "$D" HEAD || exit 2
 cleanup() { git -C /repo worktree remove --force "$D" 2>/dev/null; rm -rf "$D"; }
 trap cleanup EXIT
-git -C "$D" apply "$PATCH" || { echo "MUTANT $NAME: patch does not apply"; exit 2; }
+git -C "$D" apply -3 "$PATCH" 2>/dev/null || git -C "$D" apply "$PATCH" || { echo "MUTANT $NAME: patch does not apply"; exit 2; }
 export CARGO_NET_OFFLINE=true
 cd /verif/harness
 cargo build --quiet --release --config "paths=[\"$D\"]" --target-dir "$D/th" 2> "$D/build.log" || { echo "MUTANT $NAME: does not compile"; tail -20 "$D/build.log"; exit 2; }
